@@ -404,12 +404,13 @@ func ruleLoopCapture(c *Ctx, rule string, pkgs ...string) {
 	c.floor(rule, "goroutines started in loops", n, 1)
 }
 
-var perTopCounts = map[string]int{}
-
 func perTopCount(c *Ctx, rule string, top *ssa.Function) int {
+	if c.counters == nil {
+		c.counters = map[string]int{}
+	}
 	k := c.Prop + "|" + rule + "|" + top.String()
-	perTopCounts[k]++
-	return perTopCounts[k]
+	c.counters[k]++
+	return c.counters[k]
 }
 
 // ruleC08f: the consumer of HAVING (addHaving) reads and strips the LAST value
